@@ -47,10 +47,15 @@ pub fn new_for_path_rec(base_path: &PathBuf, sub_path: Vec<String>) -> State {
         return State::new();
     }
 
-    let mut files: State = fs::read_dir(base_path)
-        .unwrap()
+    // a directory that cannot be read (permissions) is skipped, not fatal
+    let entries = |path: &PathBuf| -> Vec<PathBuf> {
+        fs::read_dir(path)
+            .map(|entries| entries.flatten().map(|entry| entry.path()).collect())
+            .unwrap_or_default()
+    };
+
+    let mut files: State = entries(base_path)
         .into_iter()
-        .map(|entry| entry.unwrap().path())
         .filter(|path| path.extension().map_or(false, |ex| ex.eq("md")))
         .collect::<Vec<PathBuf>>()
         .par_iter()
@@ -59,14 +64,13 @@ pub fn new_for_path_rec(base_path: &PathBuf, sub_path: Vec<String>) -> State {
         .into_iter()
         .collect();
 
-    let subs: State = fs::read_dir(base_path)
-        .unwrap()
+    let subs: State = entries(base_path)
         .into_iter()
-        .map(|entry| entry.unwrap().path())
         .filter(|path| path.is_dir())
         .flat_map(|path| {
             let mut sub = sub_path.clone();
-            sub.push(path.file_name().unwrap().to_str().unwrap().to_string());
+            // (a name that is not valid UTF-8 is converted lossily, as file names are)
+            sub.push(path.file_name().unwrap().to_string_lossy().to_string());
             new_for_path_rec(&path, sub)
         })
         .collect();
